@@ -608,9 +608,10 @@ class _SeededRng:
     """stand-in for the random module: the analyser's own seeded generator (`stuck` makes sample() answer with the head of the
     population every time, so that a retry loop cannot make progress and the fallback branch is reached)"""
 
-    def __init__(self, stuck=False):
+    def __init__(self, stuck=False, stuck_calls=None):
         import random as _r
         self.r, self.stuck = _r.Random(20240229), stuck
+        self.stuck_calls = stuck_calls           # randint answers its lower bound for this many calls, then draws
 
     def sample(self, pop, k):
         if not isinstance(pop, (list, tuple, range, str)):
@@ -623,6 +624,9 @@ class _SeededRng:
     def randint(self, a, b):
         if b < a:
             raise ValueError
+        if self.stuck_calls:
+            self.stuck_calls -= 1
+            return a
         return self.r.randint(a, b)
 
     def choice(self, seq):
@@ -662,14 +666,14 @@ def semantic_samplers(prog):
         if v < 0:
             raise ValueError(name)
 
-    def run(fname, args, stuck=False, budget=300000):
+    def run(fname, args, stuck=False, budget=300000, stuck_calls=None):
         fi = prog.func(GR, fname)
         f = Folder(env={}, fuel=budget)
-        rnd = _SeededRng(stuck)
+        rnd = _SeededRng(stuck, stuck_calls)
+        f.module_functions = {fname: fi.node}
         f.globals = {"random": rnd, "BipartiteGraph": S.BipartiteGraph, "Graph": S.Graph, "DirectedGraph": S.DirectedGraph,
                      "BaseBipartiteGraph": S.BaseBipartiteGraph, "non_negative_int": nni, "positive_int": nni, "product": itertools.product,
                      "combinations": itertools.combinations}
-        f.module_functions = {}
         try:
             return ("value", f.call_function(fi.node, list(args), {}))
         except Raised as r:
@@ -755,6 +759,30 @@ def semantic_samplers(prog):
             return False, "split_random_edges on a bipartite graph ends with %r; TypeError expected" % (res,)
         return True, "%d (graph, k, generator) instances folded" % cnt
     guard("split_random_edges", sre)
+
+    def brr():
+        cnt = 0
+        for l, r, d in ((2, 2, 1), (3, 3, 2), (4, 2, 1), (6, 3, 2), (2, 4, 2), (3, 3, 3), (0, 1, 0), (3, 2, 2), (2, 3, 1), (-1, 2, 1), (2, 2, -1), (4, 4, 0)):
+            for stuck_calls in (None, 40, 150):
+                what = "bipartite_random_regular(%d, %d, %d)%s" % (l, r, d, "" if not stuck_calls else " (the first %d draws all hit the first free slot)" % stuck_calls)
+                res = run("bipartite_random_regular", [l, r, d], budget=900000, stuck_calls=stuck_calls)
+                invalid = l < 0 or r < 0 or d < 0 or (l * d) % r != 0
+                if invalid:
+                    if res != ("raises", "ValueError"):
+                        return False, "%s ends with %r; ValueError expected" % (what, res)
+                elif d > r:
+                    continue            # more edges per left vertex than right vertices: no simple graph; the function is not asked for it
+                else:
+                    G = res[1] if res[0] == "value" else None
+                    if not isinstance(G, S.BipartiteGraph) or (G.L, G.R) != (l, r):
+                        return False, "%s ends with %r" % (what, res)
+                    ld = [G.right_degree(u) for u in range(1, l + 1)]
+                    rd = [G.left_degree(v) for v in range(1, r + 1)]
+                    if any(x != d for x in ld) or any(x != l * d // r for x in rd):
+                        return False, "%s gives left degrees %s and right degrees %s; %d on the left and %d on the right expected" % (what, ld, rd, d, l * d // r)
+                cnt += 1
+        return True, "%d (l, r, d, generator) instances folded" % cnt
+    guard("bipartite_random_regular", brr)
     return out
 
 
